@@ -968,6 +968,9 @@ func checkC08(w *World, r *Report) {
 		ruleSetRefill(w, r, "C08", trig, pred, pathOpts{InlineDepth: 3, Inline: noInline(trig, pred)})
 	}
 	ruleStatisticsFaithful(w, r, "C08")
+	// the cell counter advances by the components' recorded widths: they must be the widths of the very
+	// texts the components hold (a tip frame charged with another frame's width shifts the filled part)
+	ruleComponentWidths(w, r, "C08")
 }
 
 // ruleCellsBounded (C07): in bFiller.Fill every increment of the cell counter is bounded by the
